@@ -320,13 +320,91 @@ def untx (n : Nat) (it : Item) : Option Tx :=
         { fees, references, inputs, outputs, validity, mints, burns, adhoc, collateral, signers, metadata }
     | _ => none
 
-/-- `encoding::from_bytes` for the current version: one data item spanning the input, read as a `Tx`. -/
-def fromBytes (b : Bytes) : Option Tx := (Cbor.decode b).bind (untx (b.length + 1))
+/-! ### ciborium's recursion budget
+
+`ciborium::from_reader` starts with a budget of 256 and spends one unit, for as long as it is inside, on every
+enum (`deserialize_enum`), every sequence or tuple (`deserialize_seq`: `Vec`, tuples, tuple variants, `Vec<u8>`
+written as an array) and every map or struct (`deserialize_map`); `Option`, `Box`, newtype structs and scalars
+cost nothing.  `nest` is the deepest point the typed reader reaches on the encoding of a value. -/
+
+def maxL (l : List Nat) : Nat := l.foldl max 0
+
+def nestClass : AssetClass → Nat
+  | .naked => 1
+  | .named _ => 2
+  | .defined _ _ => 3
+
+/-- `CanonicalAssets`: a map whose keys are `AssetClass` enums. -/
+def nestAssets (a : Assets) : Nat := 1 + maxL (a.map fun e => nestClass e.1)
+
+/-- A `Utxo` without its datum / script: `ref` (struct + txid array), `address` (array), `assets`. -/
+def nestMeta (m : UtxoMeta) : Nat := max 2 (nestAssets m.assets)
+
+/-- A node from its kind, the deepest child and the number of children. -/
+def nestNode (k : Kind) (m n : Nat) : Nat :=
+  match k with
+  | .list => 2 + m
+  | .map => if n < 2 then 2 else 3 + m
+  | .tuple => 2 + m
+  | .struct _ => 3 + m
+  | .assets => if n < 3 then 2 else 3 + m
+  | .param .set => 2 + m
+  | .param (.expectValue _ _) => 4
+  | .param (.expectInput _ _ _) => 4 + m
+  | .param .expectFees => 2
+  | .builtin .noop => 2 + m
+  | .builtin .negate => 2 + m
+  | .builtin _ => 3 + m
+  | .compiler .computeTipSlot => 2
+  | .compiler _ => 2 + m
+  | .coerce _ => 2 + m
+  | .adhoc _ _ => 3 + m
+  | .utxoSet metas => if metas.isEmpty then 2 else 3 + max (maxL (metas.map nestMeta)) m
+
+mutual
+def nestE : Expr → Nat
+  | .leaf .none => 1
+  | .leaf (.bytes _) => 2
+  | .leaf (.number _) => 1
+  | .leaf (.bool _) => 1
+  | .leaf (.string _) => 1
+  | .leaf (.address _) => 2
+  | .leaf (.hash _) => 2
+  | .leaf (.utxoRefs rs) => if rs.isEmpty then 2 else 4
+  | .node k cs => nestNode k (nestL cs) cs.length
+def nestL : List Expr → Nat
+  | [] => 0
+  | c :: cs => max (nestE c) (nestL cs)
+end
+
+def nestTx (t : Tx) : Nat :=
+  1 + maxL [
+    nestE t.fees,
+    1 + nestL t.references,
+    1 + maxL (t.inputs.map fun i => 1 + max (nestE i.utxos) (nestE i.redeemer)),
+    1 + maxL (t.outputs.map fun o => 1 + max (nestE o.address) (max (nestE o.datum) (nestE o.amount))),
+    (match t.validity with | some (a, b) => 1 + max (nestE a) (nestE b) | none => 0),
+    1 + maxL (t.mints.map fun m => 1 + max (nestE m.amount) (nestE m.redeemer)),
+    1 + maxL (t.burns.map fun m => 1 + max (nestE m.amount) (nestE m.redeemer)),
+    1 + maxL (t.adhoc.map fun e => match e with | .node (.adhoc _ _) cs => 2 + nestL cs | _ => 0),
+    1 + maxL (t.collateral.map fun c => 1 + nestE c),
+    (match t.signers with | some s => 2 + nestL s | none => 0),
+    1 + maxL (t.metadata.map fun m => 1 + max (nestE m.key) (nestE m.value))]
+
+def recursionLimit : Nat := 256
+
+/-- `encoding::from_bytes` for the current version: one data item spanning the input, read as a `Tx`, within
+ciborium's recursion budget. -/
+def fromBytes (b : Bytes) : Option Tx :=
+  ((Cbor.decode b).bind (untx (b.length + 1))).bind fun t => if nestTx t ≤ recursionLimit then some t else none
 
 /-- The hypotheses of the byte-level round-trip theorem (`C11_wire_roundtrip`), evaluated by the driver on every
 generated transaction: the item written is within what CBOR heads can carry, the expression slots are well
 shaped and not larger than the fuel `fromBytes` gives the typed reader. -/
 def bytesHyps (t : Tx) : Bool :=
   (tx t).wfb && t.slots.all fun e => Shaped e && decide (e.size ≤ (toBytes t).length + 1)
+
+/-- A transaction from raw bytes without the recursion budget (used to tell "too deep" from "malformed"). -/
+def fromBytesUnbounded (b : Bytes) : Option Tx := (Cbor.decode b).bind (untx (b.length + 1))
 
 end Tx3.Wire
